@@ -531,6 +531,8 @@ KERNELS2 = [
     ("countmin", "_query_log8", "query_log8", {}),
     ("countmin", "_add_log8", "add_log8", {"externs": {"_log_counter": ("log_counter", [0, 5, 6], 2)}}),
     ("countmin", "_add_ngram_log8", "add_ngram_log8", {}),
+    ("countmin", "_merge_log16", "merge_log16", {"cell": {"name": "merge_cell", "target": "cms", "reads": ["cms", "other_cms"]}}),
+    ("countmin", "_merge_log8", "merge_log8", {"cell": {"name": "merge_cell", "target": "cms", "reads": ["cms", "other_cms"]}}),
     ("heavyhitters", "_add", "hh_add", {"prelude": HH_ADD_PRELUDE,
                                          "prelude_lets": ["key := ko.slice key 0 max_key_len", "key_len := min (ko.klen key) max_key_len", "key_array := ko.arr key max_key_len"],
                                          "prelude_env": {"key_len": "nat", "key_array": "b"}}),
@@ -543,15 +545,106 @@ KERNELS2 = [
 GROUPS2 = {
     "FullHll": ["n_leading_zeros64", "hll_add", "hll_add_ngram", "hll_merge", "hll_query"],
     "FullLin": ["query_linear", "add_linear", "add_ngram_linear", "merge_linear"],
-    "FullLog": ["query_log16", "add_log16", "add_ngram_log16", "query_log8", "add_log8", "add_ngram_log8"],
+    "FullLog": ["query_log16", "add_log16", "add_ngram_log16", "query_log8", "add_log8", "add_ngram_log8", "merge_log16", "merge_log8"],
     "FullHH": ["hh_add", "hh_add_ngram", "hh_merge", "hh_max_count"],
 }
 
-EXTERN_TY = {"log_counter": "Nat → Nat → Nat → Nat × Nat", "count_nonzero": "Nat", "linear_counting": "Nat → Nat → α", "estimation_function": "α", "interp": "α → α"}
-EXTERN_DOC = {"count_nonzero": "`count_nonzero` = `np.count_nonzero(registers)`", "linear_counting": "`linear_counting m n_zero` = `_linear_counting(m, n_zero)`",
+EXTERN_TY = {"merge_cell": "Nat → Nat → Nat", "log_counter": "Nat → Nat → Nat → Nat × Nat", "count_nonzero": "Nat", "linear_counting": "Nat → Nat → α", "estimation_function": "α", "interp": "α → α"}
+EXTERN_DOC = {"merge_cell": "`merge_cell a b` stands for the body of the innermost loop as a function of the two cell values `cms[row, col]`, `other_cms[row, col]` "
+                            "(checked on the source: the body reads the arrays only at `[row, col]`, stores only into `cms[row, col]`, assigns no parameter and no name used "
+                            "outside it, calls only pure helpers; its float arithmetic is mirrored by `mergeLogCellF` and compared bit for bit by the correspondence)",
+              "count_nonzero": "`count_nonzero` = `np.count_nonzero(registers)`", "linear_counting": "`linear_counting m n_zero` = `_linear_counting(m, n_zero)`",
               "estimation_function": "`estimation_function` = `_estimation_function(registers, m, alpha)`", "interp": "`interp x` = `np.interp(x, raw_estimate, bias_data)`",
               "log_counter": "`log_counter counter rand_ptr value` stands for `_log_counter(counter, num_reserved, uint_maxval, base, rand_nums, rand_ptr, value)` "
                              "(float arithmetic inside; its loop body is translated separately as `Src.logCounterStep`)"}
+
+
+CELL_PURE_CALLS = {"_counter2value", "np.log", "uint16", "uint8", "uint32", "uint64", "float64", "np.uint16", "np.uint8", "np.float64", "min", "max"}
+
+
+def _cell_abstract(node, cell):
+    """`spec["cell"]`: replace the body of the innermost loop by `cms[row, col] = merge_cell(cms[row, col], other_cms[row, col])`
+    after checking that this is what the body IS, as far as the arrays are concerned (a function of the two cells and of loop-invariant scalars)."""
+    name, target, reads = cell["name"], cell["target"], cell["reads"]
+    fors = [n for n in ast.walk(node) if isinstance(n, ast.For)]
+    inner = [f for f in fors if not any(isinstance(x, ast.For) for b in f.body for x in ast.walk(b))]
+    if len(inner) != 1:
+        raise TranslateError(f"{node.name}: expected exactly one innermost loop, found {len(inner)}")
+    inner = inner[0]
+    outer = [f for f in fors if f is not inner and any(x is inner for x in ast.walk(f))]
+    if len(outer) != 1 or not isinstance(inner.target, ast.Name) or not isinstance(outer[0].target, ast.Name):
+        raise TranslateError(f"{node.name}: the cell loop is not a two-level `for row … for col …` nest")
+    row, col = outer[0].target.id, inner.target.id
+    if outer[0].body != [inner] and [b for b in outer[0].body if not (isinstance(b, ast.Expr) and isinstance(b.value, ast.Constant))] != [inner]:
+        raise TranslateError(f"{node.name}: the row loop contains statements besides the column loop")
+    params = {a.arg for a in node.args.args}
+    body_nodes = [x for b in inner.body for x in ast.walk(b)]
+    for x in body_nodes:
+        if isinstance(x, (ast.Return, ast.Break, ast.Continue, ast.While, ast.Raise, ast.Try, ast.With, ast.Global, ast.Nonlocal, ast.Lambda, ast.Yield, ast.Await, ast.Delete, ast.Starred)):
+            raise TranslateError(f"{node.name}: `{type(x).__name__}` inside the cell body")
+        if isinstance(x, ast.Subscript):
+            idx = x.slice.elts if isinstance(x.slice, ast.Tuple) else [x.slice]
+            ok = isinstance(x.value, ast.Name) and len(idx) == 2 and all(isinstance(e, ast.Name) for e in idx) and [e.id for e in idx] == [row, col]
+            if not ok:
+                raise TranslateError(f"{node.name}: the cell body touches `{ast.unparse(x)}` — not the cell `[{row}, {col}]`")
+            if isinstance(x.ctx, ast.Store) and x.value.id != target:
+                raise TranslateError(f"{node.name}: the cell body stores into `{x.value.id}`")
+            if isinstance(x.ctx, ast.Load) and x.value.id not in reads:
+                raise TranslateError(f"{node.name}: the cell body reads array `{x.value.id}`")
+        if isinstance(x, ast.Call) and ast.unparse(x.func) not in CELL_PURE_CALLS:
+            raise TranslateError(f"{node.name}: the cell body calls `{ast.unparse(x.func)}`")
+        if isinstance(x, ast.Call) and x.keywords:
+            raise TranslateError(f"{node.name}: keyword arguments in the cell body")
+    local = {x.id for x in body_nodes if isinstance(x, ast.Name) and isinstance(x.ctx, ast.Store)}
+    if local & (params | {row, col}):
+        raise TranslateError(f"{node.name}: the cell body assigns {sorted(local & (params | {row, col}))}")
+    arrays = set(reads) | {target}
+    for x in body_nodes:
+        if isinstance(x, ast.Name) and isinstance(x.ctx, ast.Load) and x.id in arrays:
+            pass  # only legal under a [row, col] subscript: every other use is rejected next
+    for b in inner.body:
+        for x in ast.walk(b):
+            for ch in ast.iter_child_nodes(x):
+                if isinstance(ch, ast.Name) and ch.id in arrays and not (isinstance(x, ast.Subscript) and ch is x.value):
+                    raise TranslateError(f"{node.name}: array `{ch.id}` used whole inside the cell body")
+    outside = [x for x in ast.walk(node) if isinstance(x, ast.Name) and x.id in local and not any(x is y for y in body_nodes)]
+    if outside:
+        raise TranslateError(f"{node.name}: `{outside[0].id}`, assigned in the cell body, is used outside it")
+    # a loop-carried local: read in the body before any assignment on some path — approximate soundly: every local must be assigned (at top level or in
+    # both branches) before its first textual read
+    seen = set()
+    def walk_stmts(stmts, defined):
+        for st in stmts:
+            if isinstance(st, ast.If):
+                for x in ast.walk(st.test):
+                    if isinstance(x, ast.Name) and x.id in local and x.id not in defined:
+                        raise TranslateError(f"{node.name}: local `{x.id}` may be read before it is assigned in this iteration")
+                d1 = walk_stmts(st.body, set(defined))
+                d2 = walk_stmts(st.orelse, set(defined))
+                defined |= (d1 & d2)
+            else:
+                val = st.value if isinstance(st, (ast.Assign, ast.AugAssign, ast.Expr)) else None
+                if val is None:
+                    raise TranslateError(f"{node.name}: unsupported statement in the cell body: `{ast.unparse(st)[:60]}`")
+                reads_ = [x for x in ast.walk(val) if isinstance(x, ast.Name)]
+                if isinstance(st, ast.AugAssign):
+                    reads_ += [x for x in ast.walk(st.target) if isinstance(x, ast.Name) and not isinstance(st.target, ast.Subscript)]
+                for x in reads_:
+                    if x.id in local and x.id not in defined:
+                        raise TranslateError(f"{node.name}: local `{x.id}` may be read before it is assigned in this iteration")
+                tg = st.targets if isinstance(st, ast.Assign) else ([st.target] if isinstance(st, ast.AugAssign) else [])
+                for t in tg:
+                    if isinstance(t, ast.Name):
+                        defined.add(t.id)
+                    elif not isinstance(t, ast.Subscript):
+                        raise TranslateError(f"{node.name}: unsupported assignment target in the cell body")
+        return defined
+    walk_stmts([b for b in inner.body if not (isinstance(b, ast.Expr) and isinstance(b.value, ast.Constant))], set())
+    src = f"{target}[{row}, {col}] = {name}(" + ", ".join(f"{a}[{row}, {col}]" for a in reads) + ")"
+    tmp = "cell_new"
+    new = ast.parse(f"{tmp} = {name}(" + ", ".join(f"{a}[{row}, {col}]" for a in reads) + f")\n{target}[{row}, {col}] = {tmp}").body
+    inner.body = new
+    return src
 
 
 def _mutated_of(fn, fns):
@@ -591,6 +684,11 @@ def translate_all(_collect=None):
                     node = n
             if node is None:
                 raise TranslateError(f"function {pyname} not found in {mod}.py")
+            if "cell" in spec:
+                import copy
+                node = copy.deepcopy(node)
+                _cell_abstract(node, spec["cell"])
+                spec = dict(spec, externs={spec["cell"]["name"]: (spec["cell"]["name"], list(range(len(spec["cell"]["reads"]))), 1)})
             fn = Fn(mod, node, lean)
             fn.mutated = _mutated_of(fn, fns)
             Tr._fns = fns
